@@ -286,6 +286,13 @@ func Ops() []OpDef {
 			c.Begin()
 			return rres(c.G.SendCommand(Cmd1, tmo(o)...))
 		}, Want: Out1})
+	// interim prompt patterns switch SendInput to its read-until-any-prompt branch
+	add(OpDef{Name: "generic.SendCommand-interim", Kind: "cli", Override: true, ErrClass: "timeout", Setup: gen, Recovery: true,
+		Call: func(c *OpCtx, o time.Duration) (string, error) {
+			c.Begin()
+			opts := append(tmo(o), opoptions.WithInterimPromptPattern([]*regexp.Regexp{regexp.MustCompile(`(?m)^\.\.\.\s?$`)}))
+			return rres(c.G.SendCommand(Cmd1, opts...))
+		}, Want: Out1})
 	add(OpDef{Name: "generic.SendCommands", Kind: "cli", Override: true, ErrClass: "timeout", Setup: gen, Recovery: true,
 		Call: func(c *OpCtx, o time.Duration) (string, error) {
 			c.Begin()
